@@ -420,7 +420,7 @@ func readFile(rc *RunCtx, format int, data []byte, cfg readCfg) *readResult {
 		opts = append(opts, obiformats.OptionsFullFileBatch(true))
 	}
 	knobs := map[string]int{"chunk": cfg.Chunk}
-	rr.res = rc.Sim(SimOpts{Knobs: knobs}, func() {
+	rr.res = rc.Sim(SimOpts{Knobs: knobs, YieldDensity: rc.Sched.Choose(3)}, func() {
 		switch cfg.Stage {
 		case 0:
 			ch := obiformats.ReadSeqFileChunk("sim", rd, make([]byte, cfg.Chunk), splitterOf(format))
